@@ -101,6 +101,7 @@ func spawnChild() *childProc {
 		panic(err)
 	}
 	c := exec.Command(exe, "-child")
+	c.Dir = os.Getenv("TMPDIR")            // an empty private directory: includes from <stdin> look into "." first
 	c.ExtraFiles = []*os.File{reqR, respW} // fd 3, fd 4 in the child
 	sb := &capBuf{}
 	c.Stderr = sb
